@@ -47,6 +47,7 @@ type xrec struct {
 	Idx []int        `json:"idx,omitempty"`
 	AS  int          `json:"as,omitempty"`
 	Op  string       `json:"op,omitempty"`
+	SP  string       `json:"sp,omitempty"` // call-like kinds: callee type spelled "short" (return type) or "full" (function type)
 }
 
 type rcase struct {
@@ -78,6 +79,9 @@ func (c *rcase) key() string {
 	}
 	if c.X.Op != "" {
 		s += " " + c.X.Op
+	}
+	if c.X.SP != "" {
+		s += " spelled " + c.X.SP
 	}
 	return s
 }
@@ -131,7 +135,7 @@ func (c *rcase) calleeText(callee string) string {
 	pt := c.Ops[0]
 	ft := pt.E
 	ty := ft.Ret.LL()
-	if ft.VA {
+	if ft.VA || c.X.SP == "full" {
 		ty = ft.LL()
 	}
 	var args []string
@@ -199,8 +203,11 @@ func (c *rcase) unit(name string) string {
 		}
 		return fmt.Sprintf("define void @%s(%s* %%p) {\n  store %s %s, %s* %%p\n  ret void\n}\n", name, w, w, e, w)
 	}
+	// Every template ends with an unnamed value carrying the number LLVM gives it (llvm-as
+	// checks the number): a value under test that the library wrongly takes for a value or
+	// for a non-value shifts the numbering and the parser rejects the text.
 	simple := func(body string) string {
-		return fmt.Sprintf("define void @%s(%s) {\n  %s%s\n%s  ret void\n}\n", name, sigParams, res, body, use)
+		return fmt.Sprintf("define void @%s(%s) {\n  %s%s\n%s  %%1 = add i8 0, 0\n  ret void\n}\n", name, sigParams, res, body, use)
 	}
 	switch {
 	case c.Kind == "fneg":
@@ -246,7 +253,7 @@ func (c *rcase) unit(name string) string {
 	case c.Kind == "phi":
 		return fmt.Sprintf("define void @%s(%s) {\nentry:\n  br label %%b\nb:\n  %%r = phi %s [ %%a0, %%entry ]\n%s  ret void\n}\n", name, sigParams, c.X.Ty.LL(), use)
 	case c.Kind == "invoke":
-		return fmt.Sprintf("define void @%s(%s) personality i32 (...)* @__gxx_personality_v0 {\nentry:\n  %sinvoke %s to label %%ok unwind label %%lp\nok:\n%s  ret void\nlp:\n  %%e = landingpad { i8*, i32 } cleanup\n  ret void\n}\n",
+		return fmt.Sprintf("define void @%s(%s) personality i32 (...)* @__gxx_personality_v0 {\nentry:\n  %sinvoke %s to label %%ok unwind label %%lp\nok:\n%s  %%0 = add i8 0, 0\n  ret void\nlp:\n  %%e = landingpad { i8*, i32 } cleanup\n  ret void\n}\n",
 			name, sigParams, res, c.calleeText("%a0"), use)
 	case c.Kind == "callbr":
 		ft := c.Ops[0].E
@@ -254,8 +261,12 @@ func (c *rcase) unit(name string) string {
 		if ft.Ret.K == "void" {
 			cons = "X"
 		}
-		return fmt.Sprintf("define void @%s(%s) {\nentry:\n  %scallbr %s asm \"\", \"%s\"(i8* blockaddress(@%s, %%t)) to label %%ok [label %%t]\nok:\n%s  ret void\nt:\n  ret void\n}\n",
-			name, sigParams, res, ft.Ret.LL(), cons, name, use)
+		ty := ft.Ret.LL()
+		if c.X.SP == "full" {
+			ty = ft.LL()
+		}
+		return fmt.Sprintf("define void @%s(%s) {\nentry:\n  %scallbr %s asm \"\", \"%s\"(i8* blockaddress(@%s, %%t)) to label %%ok [label %%t]\nok:\n%s  %%0 = add i8 0, 0\n  ret void\nt:\n  ret void\n}\n",
+			name, sigParams, res, ty, cons, name, use)
 	case c.Kind == "landingpad":
 		return fmt.Sprintf("define void @%s(%s) personality i32 (...)* @__gxx_personality_v0 {\nentry:\n  invoke void @g() to label %%ok unwind label %%lp\nok:\n  ret void\nlp:\n  %%r = landingpad %s cleanup\n%s  ret void\n}\n",
 			name, sigParams, c.X.Ty.LL(), use)
@@ -333,7 +344,11 @@ func uints(idx []int) []uint64 {
 
 // construct builds the value of the case with the library's constructors.
 func construct(uni tyutil.Universe, c *rcase) types.Type {
-	b := tyutil.NewBuilder(uni, false)
+	return constructWith(tyutil.NewBuilder(uni, false), c)
+}
+
+// constructWith builds the value of the case from the types the builder hands out.
+func constructWith(b *tyutil.Builder, c *rcase) types.Type {
 	ty := func(t *tyutil.Term) types.Type { return b.Type(t) }
 	if c.Form == "cexpr" {
 		var a []constant.Constant
@@ -444,6 +459,11 @@ func locate(m *ir.Module, c *rcase) (typed, error) {
 	if f == nil {
 		return nil, fmt.Errorf("no function definition in the parsed module")
 	}
+	return locateIn(f, c)
+}
+
+// locateIn finds the value of the case in its function.
+func locateIn(f *ir.Func, c *rcase) (typed, error) {
 	if c.Form == "cexpr" {
 		for _, in := range f.Blocks[0].Insts {
 			if st, ok := in.(*ir.InstStore); ok {
@@ -477,9 +497,36 @@ func locate(m *ir.Module, c *rcase) (typed, error) {
 	return nil, fmt.Errorf("no %s in the parsed function", want)
 }
 
-var sites = []string{"constructor", "parser", "recomputed"}
+// Observation sites. The first three are taken case by case (fresh type objects, one module
+// per case). The "batch" sites share state between cases, as real programs do: ONE module
+// that contains every case is parsed once, and every constructor call draws its operand types
+// from ONE interning builder (the library's singletons types.I8, ... included); all of their
+// types are read only after the last case has been computed. The "+reread" sites read the
+// type objects reported case by case once more at the very end. "printed" is llvm-as's verdict
+// on the batch module as the library prints it (every use spelled with the reported type).
+var sites = []string{"constructor", "parser", "recomputed", "constructor+reread", "parser+reread", "recomputed+reread",
+	"parser(batch)", "recomputed(batch)", "constructor(batch)", "printed(batch)"}
+
+// baseSite is the case-by-case site a batch or re-read site repeats.
+func baseSite(site string) string {
+	for _, suf := range []string{"+reread", "(batch)"} {
+		if i := strings.Index(site, suf); i >= 0 && site != "printed(batch)" {
+			return site[:i]
+		}
+	}
+	return site
+}
 
 func siteName(c *rcase, site string) string {
+	if i := strings.Index(site, "+reread"); i >= 0 {
+		return siteName(c, site[:i]) + " (type object re-read after all cases)"
+	}
+	if i := strings.Index(site, "(batch)"); i >= 0 {
+		if site == "printed(batch)" {
+			return "llvm-as on the library's print of the parsed module of all cases"
+		}
+		return siteName(c, site[:i]) + " (all cases sharing one module / one set of type objects, read after the last case)"
+	}
 	pkg := "ir"
 	if c.Form == "cexpr" {
 		pkg = "constant"
@@ -529,10 +576,139 @@ func evaluate(uni tyutil.Universe, c *rcase, valid bool) *result {
 			r.out["recomputed"] = tyutil.Observe(func() (types.Type, error) { return v.Type(), nil })
 		}
 	}
-	for _, s := range sites {
-		r.class[s] = r.out[s].Class(c.Want)
-	}
 	return r
+}
+
+// batch adds the observations that share state between the cases (see sites).
+func batch(rep *mbt.Report, uni tyutil.Universe, results []*result, ok []bool) {
+	// constructors over one interning builder
+	b := tyutil.NewInternBuilder(uni)
+	for n, r := range results {
+		if ok[n] {
+			c := r.c
+			r.out["constructor(batch)"] = tyutil.Observe(func() (types.Type, error) { return constructWith(b, c), nil })
+		}
+	}
+	// one module with every case whose own module the parser read
+	var idx []int
+	for n, r := range results {
+		if ok[n] && r.out["parser"].Type != nil {
+			idx = append(idx, n)
+		}
+	}
+	funcs := map[string]*ir.Func{}
+	var mods []*ir.Module
+	var parse func(lo, hi int)
+	parse = func(lo, hi int) {
+		var sb strings.Builder
+		sb.WriteString(uni.Defs() + prelude)
+		for _, n := range idx[lo:hi] {
+			sb.WriteString(results[n].c.unit(fmt.Sprintf("f%d", n)))
+		}
+		var m *ir.Module
+		var err error
+		msg, p := mbt.Guard(func() { m, err = asm.ParseString("c06-all.ll", sb.String()) })
+		if p || err != nil {
+			if hi-lo > 1 {
+				mid := (lo + hi) / 2
+				parse(lo, mid)
+				parse(mid, hi)
+				return
+			}
+			o := tyutil.Outcome{Panic: msg}
+			if !p {
+				o = tyutil.Outcome{Err: err.Error()}
+			}
+			results[idx[lo]].out["parser(batch)"] = o
+			return
+		}
+		mods = append(mods, m)
+		for _, f := range m.Funcs {
+			funcs[f.Name()] = f
+		}
+	}
+	if len(idx) > 0 {
+		parse(0, len(idx))
+	}
+	vals := map[int]typed{}
+	for _, n := range idx {
+		f := funcs[fmt.Sprintf("f%d", n)]
+		if f == nil {
+			continue
+		}
+		r := results[n]
+		r.out["parser(batch)"] = tyutil.Observe(func() (types.Type, error) {
+			x, err := locateIn(f, r.c)
+			if err != nil {
+				return nil, err
+			}
+			vals[n] = x
+			if t, has := tyutil.TypField(x); has && t != nil {
+				return t, nil
+			}
+			return x.Type(), nil
+		})
+	}
+	// the library's print of those modules, judged by llvm-as (uses are printed with the reported types)
+	printed := 0
+	for _, m := range mods {
+		var defs []*ir.Func
+		var decls []*ir.Func
+		for _, f := range m.Funcs {
+			if len(f.Blocks) > 0 {
+				defs = append(defs, f)
+			} else {
+				decls = append(decls, f)
+			}
+		}
+		leaves := 0
+		var check func(lo, hi int)
+		check = func(lo, hi int) {
+			if leaves > 24 {
+				return
+			}
+			sub := &ir.Module{TypeDefs: m.TypeDefs, Globals: m.Globals, Funcs: append(append([]*ir.Func{}, decls...), defs[lo:hi]...)}
+			var text string
+			msg, p := mbt.Guard(func() { text = sub.String() })
+			acc, diag := false, "the printer panics: "+msg
+			if !p {
+				acc, diag = llvmoracle.Accepts(text)
+			}
+			if acc {
+				printed += hi - lo
+				return
+			}
+			if hi-lo > 1 {
+				mid := (lo + hi) / 2
+				check(lo, mid)
+				check(mid, hi)
+				return
+			}
+			leaves++
+			var n int
+			fmt.Sscanf(defs[lo].Name(), "f%d", &n)
+			results[n].out["printed(batch)"] = tyutil.Outcome{Err: "llvm-as rejects the printed function: " + diag + "\n" + defs[lo].LLString()}
+		}
+		check(0, len(defs))
+	}
+	rep.Extra["functions_printed_and_accepted_by_llvm_as"] = printed
+	// recomputation inside the shared module
+	for _, n := range idx {
+		if v := vals[n]; v != nil && tyutil.ClearTyp(v) {
+			results[n].out["recomputed(batch)"] = tyutil.Observe(func() (types.Type, error) { return v.Type(), nil })
+		}
+	}
+	// everything reported so far is read once more, now that all cases have been computed
+	for _, r := range results {
+		for _, s := range []string{"constructor", "parser", "recomputed"} {
+			r.out[s+"+reread"] = r.out[s].Reread()
+		}
+		for _, s := range []string{"parser(batch)", "recomputed(batch)", "constructor(batch)"} {
+			if o := r.out[s]; o.Raw != nil {
+				r.out[s] = o.Reread()
+			}
+		}
+	}
 }
 
 // plainness orders the cases of one kind: fewer type nodes first, then plainer
@@ -655,6 +831,12 @@ func process(rep *mbt.Report, uni tyutil.Universe, cases []*rcase) {
 	// (a)+(c)
 	results := make([]*result, len(cases))
 	llvmoracle.Parallel(len(cases), func(n int) { results[n] = evaluate(uni, cases[n], ok[n]) })
+	batch(rep, uni, results, ok)
+	for _, r := range results {
+		for _, s := range sites {
+			r.class[s] = r.out[s].Class(r.c.Want)
+		}
+	}
 	// group the failures: site x kind x difference class; the plainest failing case names the group
 	type group struct {
 		rs []*result
@@ -674,6 +856,10 @@ func process(rep *mbt.Report, uni tyutil.Universe, cases []*rcase) {
 			perSite[s]++
 			rep.TracesValidated++
 			if cls == "=" {
+				continue
+			}
+			// a batch / re-read observation that fails exactly as the case-by-case one adds nothing
+			if base := baseSite(s); base != s && r.class[base] == cls {
 				continue
 			}
 			k := siteName(r.c, s) + "|" + r.c.Kind + "|" + cls + "\x00" + s
